@@ -250,6 +250,7 @@ func c13Benign(c *vlib.Ctx) {
 }
 
 func c13RunBenign(c *vlib.Ctx, r *vlib.Rand, ds []*dgram, seq []frag, caseNo int) {
+	c.Step()
 	df := ip4defrag.NewIPv4Defragmenter()
 	got := make([]map[int]bool, len(ds))
 	lastTouch := make([]int, len(ds))
